@@ -233,7 +233,8 @@ class BracedNameToken(XPathToken):
             namespace = ''
         else:
             value = self.parser.next_token.value
-            assert isinstance(value, str)
+            if not isinstance(value, str):
+                value = self.parser.next_token.source  # e.g. a numeric literal
             namespace = value + self.parser.advance_until('}')
             namespace = collapse_white_spaces(namespace)
 
